@@ -203,6 +203,11 @@ func (c *Ctx) size(quick, thorough int) int {
 	if c.tier == "thorough" {
 		return thorough
 	}
-	// the quick tier is sized to finish within about half a minute on 16 cores
+	// the quick tier is sized to finish within about half a minute on 16 cores: the properties whose
+	// cases are cheap to run and to judge get twice the volume
+	switch c.prop {
+	case "C01", "C02", "C03", "C04", "C05", "C06", "C07", "C08", "C09", "C10", "C11", "C13", "C16", "C18":
+		return quick * 6
+	}
 	return quick * 3
 }
